@@ -21,10 +21,20 @@ async def settle():
     await asyncio.sleep(0.002)
 
 
+import random as _random
+THERMO = world.thermostat_reply(_random.Random(5), 1, 4, 24, 2, 1)          # a valid thermostat state reply
+IRSET = {"IRSetID": "ELEC7022", "OnOffType": 0,
+         "IRWaveList": [{"Key": k, "Para": "P", "HexCode": k.upper().encode().hex()} for k in ("aa", "ad", "aw", "ar", "ah", "off", "FUN_d0", "FUN_d1")]}
+
+
 class Dev(world.FakeDevice):
     def __init__(self, ip, port):
-        super().__init__(ip, port); self.mode = "ok"
-        self.policy = lambda n, d: (bytes(20) if self.mode == "ok" else world.HALF_CLOSE if self.mode == "halfclose" else b"\x01")
+        super().__init__(ip, port); self.mode = "ok"; self.bstep = 0
+        def policy(n, d):
+            if self.mode == "breeze":          # login reply, thermostat state, then short acknowledgements
+                self.bstep += 1; return bytes(20) if self.bstep == 1 else THERMO if self.bstep == 2 else b"\x01"
+            return bytes(20) if self.mode == "ok" else world.HALF_CLOSE if self.mode == "halfclose" else b"\x01"
+        self.policy = policy
 
 
 PATIENCE = 8        # seconds after which an action against the loopback device counts as never returning
@@ -46,12 +56,20 @@ async def act(api, cls, dev, k, f):
                 dev.mode = "halfclose"
                 try: await (api.get_state() if cls is SwitcherType1Api else api.get_shutter_state())
                 finally: dev.mode = "ok"
+            elif f == 4 and cls is SwitcherType2Api:
+                # the longest operation: thermostat control on a separate-swing remote (login, state query, command, swing command)
+                from aioswitcher.api.remotes import SwitcherBreezeRemote
+                from aioswitcher.device import DeviceState, ThermostatMode, ThermostatSwing
+                dev.mode = "breeze"; dev.bstep = 0
+                try: await api.control_breeze_device(SwitcherBreezeRemote(IRSET), state=DeviceState.ON, mode=ThermostatMode.COOL, swing=ThermostatSwing.ON)
+                finally: dev.mode = "ok"
+            elif f == 4: await api.control_device(Command.ON)
             elif f:
                 dev.mode = "bad"
                 try: await (api.get_state() if cls is SwitcherType1Api else api.get_shutter_state())
                 finally: dev.mode = "ok"
             else: await (api.control_device(Command.ON) if cls is SwitcherType1Api else api.stop())
-        elif f: raise RuntimeError("simulated failure of an operation while not connected")
+        elif f and f != 4: raise RuntimeError("simulated failure of an operation while not connected")
     else:
         await dev.listen(bool(f))
         async with api:
@@ -92,8 +110,13 @@ NAMES = ["connect", "disconnect", "operation", "with", "with-body-raising-KeyErr
 
 def spec_judge(acts, text):
     """the property's clauses, independent of the model: track what 'connected' must be"""
-    must = False; steps = text.split("|")[:-1]
+    must = False; steps = text.split("|")[:-1]; prev_counts = "0,0"
     for (k, f), st in zip(acts, steps):
+        if st != "never-returned":
+            counts = st[1:-1]
+            if k == 2 and counts != prev_counts:
+                return "an operation opened or closed a connection: the device saw (open, ended) = (%s) before and (%s) after %s (%s)" % (prev_counts, counts, NAMES[k], st)
+            prev_counts = counts
         if st == "never-returned": return "%s never returned (waited %d s against a loopback device)" % (NAMES[k], PATIENCE)
         flag = st[0] == "C"; open_ = int(st[1:st.index(",")]); o = st[-1]
         if k == 8:
@@ -130,8 +153,8 @@ def model_acts(acts, type2=False):
         if k == 2:
             if conn and listening:
                 if f == 2: dead = True
-                out.append([2, 1 if (f or (dead and type2)) else 0])
-            else: out.append([2, 1 if f else 0])
+                out.append([2, 1 if ((f and f != 4) or (dead and type2)) else 0])
+            else: out.append([2, 1 if (f and f != 4) else 0])
         else: out.append([k, f])
     return out
 
@@ -169,13 +192,14 @@ def run_sequences(out, stream, cls, seqs):
 
 def run(tier, rnd, out):
     alphabet = [(0, 1), (0, 0), (1, 0), (2, 0), (2, 1), (3, 1), (3, 0), (4, 1)]
-    wide = alphabet + [(5, 1), (6, 1), (7, 1), (4, 0), (5, 0), (2, 2), (2, 2), (8, 2), (8, 90), (8, 60 * 24 * 3), (2, 3), (2, 3)]
+    wide = alphabet + [(5, 1), (6, 1), (7, 1), (4, 0), (5, 0), (2, 2), (2, 2), (8, 2), (8, 90), (8, 60 * 24 * 3), (2, 3), (2, 3), (2, 4), (2, 4)]
     by = {"SwitcherType1Api": SwitcherType1Api, "SwitcherType2Api": SwitcherType2Api}
     for c in lib.load_corpus("C18"): run_sequences(out, "corpus", by[c["cls"]], [[tuple(a) for a in c["acts"]]])
     seqs = [list(s) for L in ((1, 2, 3) if tier == "quick" else (1, 2, 3, 4)) for s in itertools.product(alphabet, repeat=L)]
     seqs += [[rnd.choice(alphabet) for _ in range(rnd.randrange(4, 9))] for _ in range(60 if tier == "quick" else 1500)]
     seqs += [[a, b] for a in wide for b in wide] + [[rnd.choice(wide) for _ in range(rnd.randrange(3, 7))] for _ in range(60 if tier == "quick" else 1500)]
     seqs += [[(0, 1), (2, 2), a, b] for a in wide for b in alphabet[:5]]
+    seqs += [[(0, 1), (2, 4), a, b] for a in alphabet for b in [(1, 0), (2, 0), (4, 1)]] + [[(3, 1), (0, 1), (2, 4), (2, 4), (1, 0)]]
     seqs += [[(0, 1), (1, 0), (2, 3), a] for a in alphabet] + [[(3, 1), (2, 3), a] for a in alphabet] + [[(0, 1), (2, 0), (1, 0), (2, 3), (2, 3), (0, 1), (2, 0), (1, 0)]]           # what follows a half-closed login, with and without a reconnect
     for cls in (SwitcherType1Api, SwitcherType2Api): run_sequences(out, "sequences", cls, seqs)
     out.exhaustive = True
